@@ -256,7 +256,7 @@ func body(r *ev.Run) {
 	defer st.Destroy()
 	tw := newTwin(st.Engine)
 	nStores := r.Pick(32, 160)
-	perStore := r.Pick(2000, 13500)
+	perStore := r.Pick(2000, 12500)
 	for _, rt := range tw.routes {
 		r.Require("reached "+rt.key(), 1)
 	}
